@@ -171,7 +171,9 @@ static std::vector<Case> make_cases(const Cfg &c, long &LA_out){
     for(size_t i=0;i<ipow(5, LA);i++) out.push_back({'A', {{0, 1}}, window_string(i, 0, LA)});
     if (len1 > LA){ int off = len1 - LA; for(size_t i=1;i<ipow(5, LA);i++) out.push_back({'A', {{0, 1}}, window_string(i, off, LA)}); } // window at the end of the iteration (acceptance draws)
     // B: several iterations, <= k deviations from the default answer
-    { int T = th ? 3 : 2, k = 2; std::vector<Str> ds; deviation_strings(T * len1, k, ds, 1); for(auto &s : ds) out.push_back({'B', {{0, T}}, s}); }
+    { int T = th ? 3 : 2; std::vector<Str> ds;
+      if (th) deviation_strings(T * len1, 2, ds, 1); else { deviation_strings(T * len1, 1, ds, 1); deviation_strings(len1, 2, ds, 2); } // quick: one deviation anywhere, two within the first iteration
+      for(auto &s : ds) out.push_back({'B', {{0, T}}, s}); }
     // C: splittings: run(b1,c1) then run(b2,c2) against the single run of the combined length
     { std::vector<Str> ds; deviation_strings(th ? len1 : std::min(len1, 4), 1, ds, 0); int top = 2;
       for(auto &s : ds) for(int b1=0;b1<=top;b1++) for(int c1=0;c1<=top;c1++) for(int b2=0;b2<=top;b2++) for(int c2=0;c2<=top;c2++){
@@ -327,7 +329,7 @@ int main(int argc, char **argv){
     vf::emit(vf::J().s("t","summary").i("units_total", (long long) U.size()).i("units_done", (long long) done)
         .s("bound", std::string("C15 tier=") + g_tier + ": chains{1,2,3} x dims{1,2} x forms x updates{none,uniform,gaussian,user} x differential{0,1,0.5} x domains{hypercube,halfspace,nothing} x pdfs{constant,peaked,boxzero,posterior(model,LikelihoodGaussIsotropic,uniform_prior)" + (th ? " [posterior not with the empty domain]" : " [quick: posterior only with the hypercube; for 3 chains half of the (domain, pdf) pairs]") + "}"
            + "; answer strings over {0,.25,.5,.75,1}: one iteration exhaustive to length min(one iteration, " + (th ? "7 (6 for 3 chains)" : "5") + ") at the start and at the end of the iteration; "
-           + (th ? "3" : "2") + " iterations with <= 2 deviations from 0.5; run splittings (b1,c1,b2,c2) in {0,1,2}^4" + (th ? "" : " with total <= 4") + " x (default + every single deviation in the first " + (th ? "iteration" : "4 draws") + ")")
+           + (th ? "3 iterations with <= 2 deviations from 0.5" : "2 iterations with <= 1 deviation from 0.5 anywhere and <= 2 inside the first iteration") + "; run splittings (b1,c1,b2,c2) in {0,1,2}^4" + (th ? "" : " with total <= 4") + " x (default + every single deviation in the first " + (th ? "iteration" : "4 draws") + ")")
         .b("exhaustive", done == U.size() && !vf::past_deadline()));
     return 0;
 }
